@@ -266,8 +266,25 @@ impl RoutingThread {
         let mut peer_key_list: Vec<SaitoPublicKey> = vec![];
         {
             let peers = self.network.peer_lock.read().await;
-            let peer = peers.find_peer_by_index(peer_index).unwrap();
-            peer_key_list.push(peer.public_key.unwrap());
+            let peer = match peers.find_peer_by_index(peer_index) {
+                Some(peer) => peer,
+                None => {
+                    warn!("ghost chain request from unknown peer : {:?}", peer_index);
+                    return;
+                }
+            };
+            let public_key = match peer.public_key {
+                Some(public_key) => public_key,
+                None => {
+                    // handshake not completed: a remote peer must not be able to stop the node
+                    warn!(
+                        "ghost chain request from peer : {:?} which has no public key yet. ignoring",
+                        peer_index
+                    );
+                    return;
+                }
+            };
+            peer_key_list.push(public_key);
             peer_key_list.append(&mut peer.key_list.clone());
         }
 
